@@ -12,7 +12,11 @@ META = {
                    "most once), no_lost_task (client between two calls and is_maintenance_mode false => queue empty and every "
                    "scheduled task has run; full strength for scripts of API maintenance calls, no_lost_task_idle for any script), "
                    "notes_grammar (notifications form a prefix of (start (success|failure)+)*, a full word whenever no worker "
-                   "runs), no_deadlock and startwork_join_is_short, all over Reach = the reflexive-transitive closure of the "
+                   "runs), excl_maintenance_thread (ANY script, StartWork(false) included: from its launch by a maintenance call to its "
+                   "last queue check a work thread keeps maintenance_mode_ true), sent_grammar / heard_all (the grammar holds for what is SENT "
+                   "whatever happens to the handler), refused_while_stopped / started_unless_finalized / finalize_waits (RimeFinalize / "
+                   "RimeInitialize), run_sync_leaves_queue (RunTask on the client thread), refused_keeps_stale (a refused call does not "
+                   "refresh a session's activity stamp), sync_drops_sessions_first, no_deadlock and startwork_join_is_short, all over Reach = the reflexive-transitive closure of the "
                    "two-thread step relation under ANY schedule (no preemption bound, any client script).  The model's atomic "
                    "steps are the code segments between the RIME_VERIF_YIELD points; the real Deployer/Service are steered "
                    "through those points by schedules enumerated from the model (all schedules with <= k preemptions over fixed "
@@ -25,8 +29,10 @@ META = {
                    "code by trace equality on the replayed schedules only (bounded by the enumeration/generator); the yield "
                    "points cut the code between accesses to shared state, segments under mutex_ are taken as atomic; one client "
                    "thread (the property's reading); deployment tasks are replaced by logging dummies (what real tasks do inside "
-                   "Run is outside C15); the notification handler stays installed; DestroySession/CleanupAllSessions are not "
-                   "guarded by disabled() and are outside the formal reading of 'session operation'.  Without the hook patch in "
+                   "Run is outside C15); DestroySession/CleanupStaleSessions/CleanupAllSessions called by the CLIENT are not "
+                   "guarded by disabled() and are outside the formal reading of 'session operation' (modelled and replayed, not judged; "
+                   "a maintenance call that touches the sessions itself after launching its thread IS judged); a service stopped by "
+                   "RimeFinalize is modelled, the monitors are silent about it; the stale sweep runs on a virtual clock (time() of the harness).  Without the hook patch in "
                    "the tree (hooks/C15.patch) only the proofs, the free-running monitors and the TSan stress run."),
     "design_ref": "DESIGN.md §3 C15",
 }
@@ -43,14 +49,35 @@ ENUM_SCRIPTS = [
     # a session that was looked up successfully just before maintenance starts (start_maintenance keeps the sessions,
     # sync_user_data destroys them) and is used again while the thread runs
     "create,find,ctx,maint:111,ctx,find,is_maint,ctx,join,is_maint,ctx",
+    # entry points beyond the property's own list (coverage round): start_maintenance(False) with a change detected, the
+    # session-dropping calls (not guarded) during and right after maintenance, a second session under the first
+    "create,create,maintq:101,destroy,find,cleanup_stale,ctx,cleanup_all,is_maint,create,join,is_maint,find,create,destroy,find",
+    # session activity stamps (virtual clock): a session used just before / refused during / used after maintenance, then
+    # the stale sweep at exactly kLifeSpan and one second later
+    "create,tick:1,cleanup_stale,find,tick:2,create,maint:111,find,tick:0,cleanup_stale,is_maint,join,cleanup_stale,find,destroy,find",
+    # finalize while the thread runs (blocks), a stopped service refuses, initialize accepts again; maintenance right after
+    "create,maint:110,find,is_maint,finalize,is_maint,create,find,initialize,create,sync:111,is_maint,create,finalize,initialize,is_maint,create",
+    # tasks run synchronously on the client thread while the work thread drains the queue; StartMaintenance() with an
+    # empty queue and while working; the handler removed and installed again around the notifications
+    "maint_noinst,start:1,sync:011,run_task:1,deploy_ws:1101,start:1,is_maint,clear_handler,run_unknown,set_handler,join,start:1,is_maint",
+]
+# short scripts enumerated one preemption deeper: a second batch scheduled in the window between the worker's last task and
+# its last queue check, then StartWork(false) and a session operation while the thread works through that batch
+ENUM_SCRIPTS_DEEP = [
+    "maint:111,sync:111,start:0,create,is_maint,join,is_maint",
+    "create,maintq:110,maint:011,start:0,find,is_maint",
 ]
 ENUM_SCRIPTS_THOROUGH = ENUM_SCRIPTS + [
     "maint:111,sync:111,is_maint",
+    "clear_handler,maintq:010,deploy_schema:1,set_handler,deploy_config:0,start:0,prebuild:1,recover:1,is_maint,join,initialize,create",
     "sync:000,create,maint:111,ctx,is_maint,recover:0,join,is_maint,find",
 ]
 STRESS_SCRIPTS = ENUM_SCRIPTS + [
     "maint:111,set_handler,is_maint,set_handler,create,set_handler,is_maint,set_handler,join,is_maint,create",
     "sync:101,set_handler,sync:111,set_handler,maint:111,set_handler,is_maint,join,is_maint",
+    "maintq:111,clear_handler,is_maint,set_handler,sync:110,clear_handler,create,set_handler,clear_handler,join,set_handler,is_maint",
+    "create,maint:111,run_task:1,destroy,cleanup_stale,finalize,initialize,create,sync:101,cleanup_all,finalize,create,initialize,is_maint",
+    "create,tick:2,create,maintq:110,find,cleanup_stale,ctx,join,find,tick:1,cleanup_stale,ctx,tick:0,cleanup_stale,find",
 ]
 SESSION_OPS = ("create", "find", "ctx")
 
@@ -59,9 +86,38 @@ SESSION_OPS = ("create", "find", "ctx")
 def rand_script(rng):
     n = rng.randint(3, 9)
     ops = []
+    wide = rng.random() < 0.6     # the wider alphabet of the coverage round
     for _ in range(n):
         r = rng.random()
-        if r < 0.20:
+        if wide and rng.random() < 0.4:
+            q = rng.random()
+            if q < 0.12:
+                ops.append("maintq:%d%d%d" % tuple(rng.randint(0, 1) for _ in range(3)))
+            elif q < 0.16:
+                ops.append("maint_noinst")
+            elif q < 0.30:
+                ops.append(rng.choice(["run_task:%d", "deploy_schema:%d", "deploy_config:%d", "prebuild:%d"]) % rng.randint(0, 1))
+            elif q < 0.34:
+                ops.append("run_unknown")
+            elif q < 0.40:
+                ops.append("deploy_ws:%d%d%d%d" % tuple(rng.randint(0, 1) for _ in range(4)))
+            elif q < 0.52:
+                ops.append("start:%d" % (1 if rng.random() < 0.7 else 0))
+            elif q < 0.64:
+                ops.append("destroy")
+            elif q < 0.70:
+                ops.append("cleanup_all")
+            elif q < 0.73:
+                ops.append("tick:%d" % rng.choice([0, 1, 2, 2]))
+            elif q < 0.76:
+                ops.append("cleanup_stale")
+            elif q < 0.84:
+                ops.append("finalize")
+            elif q < 0.92:
+                ops.append("initialize")
+            else:
+                ops.append("clear_handler")
+        elif r < 0.20:
             ops.append("maint:%d%d%d" % tuple(rng.randint(0, 1) for _ in range(3)))
         elif r < 0.38:
             ops.append("sync:%d%d%d" % tuple(rng.randint(0, 1) for _ in range(3)))
@@ -81,7 +137,7 @@ def rand_script(rng):
             ops.append("ctx")
         else:
             ops.append("set_handler")
-    if not any(o.startswith(("maint:", "sync:")) for o in ops):
+    if not any(o.startswith(("maint:", "sync:", "maintq:")) for o in ops):
         ops.insert(rng.randint(0, len(ops) - 1), "sync:%d%d%d" % tuple(rng.randint(0, 1) for _ in range(3)))
     ops.append("is_maint")
     return ",".join(ops)
@@ -177,7 +233,7 @@ def monitor_trace(script, trace, mon, ordered=True):
     """Evaluate T, N, E, exactly-once on one observed trace.  Returns list of (signature, what)."""
     v = []
     evs = events(trace)
-    has_recover = "recover" in script
+    has_recover = "recover" in script or "start:0" in script     # StartWork(false): work threads outside maintenance mode
     sched_ids, ran_ids, notes = [], [], []
     sw = [m.split(":", 1)[1] for m in mon if m.startswith("sw:")]
     sw_of, cur, swi = {}, [], 0
@@ -191,7 +247,8 @@ def monitor_trace(script, trace, mon, ordered=True):
         elif p[0] == "note":
             notes.append({"start": "s", "success": "S", "failure": "F"}.get(p[1], "?"))
         elif p[0] == "ret":
-            if p[1] in ("maint", "sync") or (p[1] == "recover" and p[2] != "3"):
+            # calls that reached StartWork (UserDictionary::Load only when it scheduled its recovery task)
+            if p[1] in ("maint", "sync", "maintq", "start") or (p[1] == "recover" and cur):
                 for i in cur:
                     sw_of[i] = sw[swi] if swi < len(sw) else "?"
                 swi += 1
@@ -218,16 +275,33 @@ def monitor_trace(script, trace, mon, ordered=True):
             if int(b) != len(ran_ids) or int(e2) != len(ran_ids):
                 v.append(("C15:task-log", "Deployer::Run's task log (%s begun, %s ended) disagrees with the tasks' own log (%d)" % (b, e2, len(ran_ids))))
         if m.startswith("m:"):
-            _, op, mb, acc, _hits, ma = (m.split(":") + ["", ""])[:6]
+            parts = m.split(":")
+            parts += ["", "", "", "", "", "", "1", "-"][len(parts):]
+            _, op, mb, acc, _hits, ma, started, truth = parts[:8]
             if mb != ma:
                 continue  # free-running: the worker finished during the call, either answer is right
-            if mb == "1" and acc == "1":
+            if started == "0":
+                continue  # a service stopped by RimeFinalize: outside the property (the correspondence covers it)
+            if truth == "1" and acc == "1":
+                # judged by what the harness knows itself (theorem excl_maintenance_thread): a thread launched by a maintenance
+                # call has not made its last queue check yet — whatever is_maintenance_mode claims
+                v.append(("C15:excl:%s:accepted-while-maintenance-thread-works" % op,
+                          "%s was executed while the thread launched by a maintenance call was still working through its queue "
+                          "(is_maintenance_mode said %s)" % (op, "true" if mb == "1" else "false")))
+            elif mb == "1" and acc == "1":
                 v.append(("C15:excl:%s:accepted-during-maintenance" % op, "%s was executed although is_maintenance_mode was true when it was issued" % op))
             if mb == "0" and acc == "0":
                 v.append(("C15:excl:%s:refused-outside-maintenance" % op, "%s was refused although the service was not in maintenance mode" % op))
+        if m.startswith("sd:"):
+            _, op, a0, a1 = m.split(":")
+            if op in ("maint", "sync", "maintq") and a0 != a1:
+                v.append(("C15:excl:%s:sessions-touched-after-thread-start" % op,
+                          "%s itself operated on the sessions after it had started the maintenance thread: %s session object(s) "
+                          "existed when the thread was launched, %s when the call returned" % (op, a0, a1)))
         if m == "unplanned-task-creation":
             v.append(("C15:harness:unplanned-task", "an API call created a deployment task the harness did not expect"))
-    if "not-quiescent" not in trace and not re.fullmatch(r"(s[SF]+)*", "".join(notes)):
+    # with the handler removed for a while the handler's view has gaps: the grammar clause is about an installed handler
+    if "not-quiescent" not in trace and "clear_handler" not in script and not re.fullmatch(r"(s[SF]+)*", "".join(notes)):
         v.append(("C15:notes-grammar", "notification sequence %s is not in (start (success|failure)+)*" % "".join(notes)))
     return v
 
@@ -375,6 +449,9 @@ def run(c):
     # model side: enumeration, random cases, the model's own monitors -----------------------------
     scripts = ENUM_SCRIPTS if quick else ENUM_SCRIPTS_THOROUGH
     enum_cases, per_script = model_enum(scripts, k)
+    deep_cases, deep_per = model_enum(ENUM_SCRIPTS_DEEP, k + 1 if quick else k)   # thorough: k = 5 is already deeper than the window needs
+    enum_cases += deep_cases
+    per_script.update(deep_per)
     rnd = [(rand_script(c.rng), rand_sched(c.rng)) for _ in range(n_random)]
     corpus = corpus_cases()
     rnd_model = model_run(corpus + rnd)
@@ -498,8 +575,8 @@ def run(c):
     })
     c.cov = cov
     c.assumptions = ["one client thread issues the API calls (the property's formal reading); the worker is the std::async thread of StartWork",
-                     "the service is started and a notification handler stays installed",
-                     "scripts with the StartWork(false) recovery path (UserDictionary::Load) are covered by no_lost_task_idle / excl only, not by excl_while_worker_runs",
+                     "the grammar clause is evaluated on the handler's view only for scripts that keep a handler installed (theorem notes_grammar); sent_grammar covers the rest on the model",
+                     "scripts with a StartWork(false) path (UserDictionary::Load recovery, direct Deployer::StartWork()) are covered by no_lost_task_idle / excl / excl_maintenance_thread, not by excl_while_worker_runs",
                      "deployment tasks are logging dummies registered over the real task names; a task failing by a non-std exception is outside the model"]
     if not have_hooks:
         print("NOTE property=C15 the tree %s has no RIME_VERIF yield hooks: schedule-replay correspondence NOT RUN "
